@@ -119,7 +119,8 @@ type Ghost struct {
 	Created   bool                   `json:"created"`
 	// ReadySteps: step indices (1-based) whose batch the BatchRelease has reported Ready, with a
 	// current spec, under the rollout's current canary revision and plan hash (reset when either changes).
-	BrEver     bool   `json:"brEver"`   // a BatchRelease has existed since the release started
+	BrEver     bool   `json:"brEver"`   // a BatchRelease has existed since the release (of the rollout's current canary revision) started
+	BrEverRev  string `json:"brEverRev"`
 	JumpBack   bool   `json:"jumpBack"` // the user jumped to a lower step index during this release
 	LateChange bool   `json:"lateChange"` // the user changed the template while the rollout was already finalising / cancelling
 	MidSwitch  bool   `json:"midSwitch"`  // the user changed the reason to finalise (rollback, newer revision, delete, disable) while a finalising / reset sequence was under way
@@ -659,6 +660,11 @@ func (w *World) afterAction(base string) {
 	}
 	if !w.S.Load(w.NS, RolloutName, ro) {
 		return
+	}
+	// brEver: "a BatchRelease has existed since the release of the CURRENT canary revision started"
+	if cr := canaryRevisionOf(ro); cr != w.Ghost.BrEverRev {
+		w.Ghost.BrEverRev = cr
+		w.Ghost.BrEver = w.S.Load(w.NS, RolloutName, br)
 	}
 	key := canaryRevisionOf(ro) + "|" + ro.Annotations["rollouts.kruise.io/hash"]
 	if key != w.Ghost.ReadyRev {
